@@ -16,6 +16,8 @@ BASE_OPTS = [
     OrderedDict([('imp:n', '2'), ('fill', '3')]),
     OrderedDict([('imp:n', '1'), ('trcl', '(1 0 0)'), ('u', '4')]),
     OrderedDict([('u', '2'), ('fill', '5 (0 0 1)'), ('imp:n', '1')]),
+    # a lattice cell filled with one universe: the ranges come from the --lattice option given for the cell ITSELF
+    OrderedDict([('imp:n', '1'), ('lat', '1'), ('fill', '7'), ('u', '4')]),
 ]
 BUT_OPTS = {
     'mat': ['7'], 'rho': ['-3.50', '2.0-2'], 'u': ['9'], 'fill': ['6', '6 (2 0 0)'], 'trcl': ['(0 3 0)', '4'],
@@ -35,12 +37,18 @@ def _opts_text(d):
     return ' '.join(f'{k.upper()}={v}' for k, v in d.items())
 
 
+def _fill_view(f):
+    if hasattr(f, 'bounds') and hasattr(f, 'spec'):
+        return ('array', [tuple(b) for b in f.bounds.bounds], list(f.spec))
+    return repr(f)
+
+
 def _fields(c):
-    return (c.materialID, c.density, repr(c.geometry), c.importance, c.universe, repr(c.fillid), tuple(c.filltr or ()),
+    return (c.materialID, c.density, repr(c.geometry), c.importance, c.universe, _fill_view(c.fillid), tuple(c.filltr or ()),
             c.lattice, [tuple(t) for t in c.trcl])
 
 
-@contract(ParseMCNPCell.parse_one_cell, props=['C15', 'C05', 'C09', 'C12', 'C04'], name='ParseMCNPCell.parse_one_cell[LIKE-BUT]', status='B')
+@contract(ParseMCNPCell.parse_one_cell, props=['C15', 'C05', 'C09', 'C12', 'C04', 'C06'], name='ParseMCNPCell.parse_one_cell[LIKE-BUT]', status='B')
 class _LikeBut:
     """parse(LIKE n BUT changes) == parse(card n with the listed parameters overridden), field by field (material,
     density, geometry, importance, universe, fill, fill transformation, TRCL), including a chain LIKE m BUT .. ->
@@ -78,6 +86,11 @@ class _LikeBut:
         base = BASE_OPTS[bi]
         p = _bare_parser(importances=[1.0, 1.0, 1.0])
         p.transforms = OrderedDict([(4, [5.0, 0.0, 0.0, 1.0, 0.0, 0.0, 0.0, 1.0, 0.0, 0.0, 0.0, 1.0])])
+        lat_opt = None
+        if 'lat' in base:
+            from t4_geom_convert.Kernel.Volume.Lattice import LatticeBounds
+            lat_opt = LatticeBounds([(0, 3), (10, 10)])                      # option given for the LIKE cell
+            p.lattice_params = {10: LatticeBounds([(0, 1), (0, 0)]), 20: LatticeBounds([(-1, 0)])}   # ... for the others
         cards = OrderedDict()
         cards[10] = ('0' if void else '2 -1.5', '-1 2', _opts_text(base))
         if isinstance(chain, tuple) and chain[0] == '3links':
@@ -85,26 +98,26 @@ class _LikeBut:
             cards[20] = ('', 'like 10 but', _opts_text({k: v_first}))
             cards[30] = ('', 'like 20 but', _opts_text({k: but[k]}))
             cards[40] = ('', 'like 30 but', _opts_text({other: but[other]}) if other else '')
-            like = p.parse_one_cell(cards, 2, None, cards[40])
+            like = p.parse_one_cell(cards, 2, lat_opt, cards[40])
         elif isinstance(chain, tuple) and chain[0] == '3links-matrho':
             cards[20] = ('', 'like 10 but', _opts_text({'mat': chain[1], 'rho': chain[2]}))
             cards[30] = ('', 'like 20 but', _opts_text({'mat': but['mat'], 'rho': but['rho']}))
             cards[40] = ('', 'like 30 but', 'U=9')
             but = OrderedDict(list(but.items()) + [('u', '9')])
-            like = p.parse_one_cell(cards, 2, None, cards[40])
+            like = p.parse_one_cell(cards, 2, lat_opt, cards[40])
         elif isinstance(chain, tuple):
             (k2, v2), = but.items()
             cards[20] = ('', 'like 10 but', _opts_text({chain[0]: chain[1]}))
             cards[30] = ('', 'like 20 but', _opts_text({k2: v2}))
-            like = p.parse_one_cell(cards, 2, None, cards[30])
+            like = p.parse_one_cell(cards, 2, lat_opt, cards[30])
         elif chain:
             (k1, v1), (k2, v2) = but.items()
             cards[20] = ('', 'like 10 but', _opts_text({k1: v1}))
             cards[30] = ('', 'like 20 but', _opts_text({k2: v2}))
-            like = p.parse_one_cell(cards, 2, None, cards[30])
+            like = p.parse_one_cell(cards, 2, lat_opt, cards[30])
         else:
             cards[20] = ('', 'like 10 but', _opts_text(but))
-            like = p.parse_one_cell(cards, 1, None, cards[20])
+            like = p.parse_one_cell(cards, 1, lat_opt, cards[20])
         # the explicit card: copy of card 10 with the listed parameters overridden
         mat = but.get('mat', '0' if void else '2')
         rho = but.get('rho', '' if void else '-1.5')
@@ -112,7 +125,7 @@ class _LikeBut:
         for k, v in but.items():
             if k not in ('mat', 'rho'):
                 merged[k] = v
-        explicit = p.parse_one_cell_worker(1, None, (f'{mat} {rho}'.strip(), '-1 2', _opts_text(merged)))
+        explicit = p.parse_one_cell_worker(1, lat_opt, (f'{mat} {rho}'.strip(), '-1 2', _opts_text(merged)))
         return _fields(like), _fields(explicit)
 
     def ensures(result, bi, but, chain, void=False):
